@@ -471,6 +471,7 @@ def h_stage(R, r, tier):
     R.do("note dkind " + dk)
     if dk == "real":
         lmin = (relax if relax else me / r.choice([1.0, 1.5, 2.0]))
+        R.do("seed %d" % r.randint(1, 1 << 30))
         a = R.do("tri %s" % fhex(lmin))
         if a is None or not a.startswith("ok"):
             return
@@ -544,6 +545,7 @@ def h_divide(R, r, tier, corpus=None):
         pass
     R.count("divide_axis_" + ak); R.count("divide_level_%d" % level)
     R.do("axis " + hexv(ax))
+    R.do("seed %d" % r.randint(1, 1 << 30))
     R.do("divide %s %s" % (fhex(lmin), fhex(scale ** 3 * r.uniform(0.5, 8.0))))
 
 
@@ -573,6 +575,7 @@ def h_round(R, r, tier):
     ctr0 = 100 + 3 * K + r.randint(0, 5)
     threads = 1 if (tier == "quick" or r.randint(0, 3)) else r.randint(2, 4)
     R.count("round_axis_" + ak); R.count("round_threads_%d" % threads)
+    R.do("seed %d" % r.randint(1, 1 << 30))
     R.do("round %s %d %d" % (fhex(lmin), ctr0, threads))
 
 
@@ -651,11 +654,11 @@ def run(ctx):
     seen = set()
     import re as _re
     for f in sorted(R.failures, key=lambda f: len(f["replay"])):      # smallest replay of each kind first
-        k = (_re.sub(r"[-+]?[0-9][0-9.e+-]*", "#", f["what"])[:70], f.get("key"))
+        k = (_re.sub(r"\b[0-9a-fx]{6,}\b|[-+]?[0-9][0-9.e+-]*", "#", f["what"])[:60], f.get("key"))
         if k in seen:
             continue
         seen.add(k)
-        if len(seen) > 4:
+        if len(seen) > 3:
             break
         V.fail_input(f["what"], {"requests": f["replay"]}, key=f.get("key"))
     for d in R.disagree[:3]:
